@@ -176,6 +176,10 @@ def threshold_points(gc, target, k=6):
 
 
 def run(ctx):
+    from .. import pipeline
+
+    # wiring: the run's stored columns are this stage applied to the run's stored columns (see nssmc/pipeline.py)
+    pipeline.run_in(ctx, ['geometry'], ('A', 'C'))
     tier = ctx.tier
     m = 10 if tier == "quick" else 16
     ua = u_alphabet(m)
@@ -270,6 +274,10 @@ def _history_replay(case):
 
 
 def replay(case):
+    if isinstance(case, dict) and case.get("kind") == "pipeline":
+        from .. import pipeline
+
+        return pipeline.replay(case)
     if case.get("kind") == "history_full":
         return _history_replay(case)
     u = np.array(case["u"], dtype=np.float64).reshape(4, 1)
